@@ -102,7 +102,7 @@ impl Property for P {
     }
     fn cases(tier: Tier) -> u64 {
         match tier {
-            Tier::Quick => 150_000,
+            Tier::Quick => 600_000,
             Tier::Thorough => 10_000_000,
         }
     }
